@@ -92,5 +92,13 @@ META["C02"] = {
     "note": "Trusted: Lean kernel, transcription (replay-validated), fakes. F2 (delivery failed when the last recipient was unreachable) was a genuine defect, repaired (fix: commit).",
 }
 
+META["C17"] = {
+    "category": "proof",
+    "design_ref": "DESIGN.md section 5 / C17",
+    "technique": "Lean 4: a trace monitor for InboxForwarding (recorded once and only if new; filter consulted about exactly the loaded collections and only after recording, loading an owned collection and an Owns-yes of the value search; payload = the received activity; recipients = members of the collections the filter kept; at most one BatchDeliver) proved to accept every run of the transcribed function for every application — induction over the recursion fuel of the depth-limited search, over the load loop with its deferred unlocks, and over the recipient loop. The same monitor runs over the real code's traces; the 'if' direction and the depth limit are decided per run by an oracle (ownsValueSpec) over the scenario's ground truth.",
+    "text": "Only-if direction, once-ness, unchanged payload and exact recipients: proved for all inputs/answers on the model. If-direction ('all three conditions hold => forwarded') and 'a repeated delivery is never forwarded again' across deliveries: oracle + replay on multi-delivery scenarios, not theorems.",
+    "note": "Known finding C17-member-ids (recipients are member ids, not inboxes) is printed as KNOWN-FINDING. Trusted: Lean kernel, transcription (replay-validated), fakes.",
+}
+
 _ALL = ["C%02d" % i for i in range(1, 21)]
 NOT_APPLICABLE = [{"property_id": p, "reason": PENDING} for p in _ALL if p not in META]
